@@ -178,6 +178,10 @@ pub struct StreamSpec {
     pub via_clone: usize,
     /// yields before the request is issued
     pub start_delay: u32,
+    /// yields before the server handler starts answering
+    pub respond_delay: u32,
+    /// the server handler answers only once the scenario gate is open (raw scripts)
+    pub respond_gate: bool,
 }
 
 impl StreamSpec {
@@ -682,6 +686,8 @@ fn gen_stream(rng: &mut Rng, idx: u32, o: &GenOpts, push_ok: bool, n_clones: usi
         server_reset: if allow_abort && rng.chance(1, 14) { Some(*rng.pick(&[0u32, 2, 7, 8, 11, 0x1234_5678])) } else { None },
         via_clone: rng.usize_below(n_clones),
         start_delay: rng.range(0, 6) as u32,
+        respond_delay: if rng.chance(1, 4) { rng.range(1, 40) as u32 } else { 0 },
+        respond_gate: false,
     }
 }
 
@@ -732,21 +738,6 @@ pub fn generate(seed: u64, o: &GenOpts) -> Scenario {
             next_idx += 1;
         }
         streams.push(s);
-    }
-    if !matches!(focus, Focus::Lifecycle | Focus::Resets) {
-        // Resetting a parent whose PUSH_PROMISE is still queued orphans the promised stream, which
-        // then keeps its assigned connection capacity for ever (known finding, C16/C06); only the
-        // reset-oriented workloads keep that shape.
-        for s in streams.iter_mut() {
-            if !s.pushes.is_empty() {
-                s.resp.abort = None;
-                s.server_reset = None;
-                s.client_cancel_after = None;
-                if let Some((_, AbortKind::Reset(_))) = s.req.abort {
-                    s.req.abort = None;
-                }
-            }
-        }
     }
     if focus != Focus::Lifecycle {
         // Pushing concurrently on several parents makes h2 emit promised ids out of order
